@@ -780,7 +780,41 @@ class Case:
                         self.fail("C09:hybrid-copy-reference-outside-its-buffer", f"after `{after}`: the reference {hn}.{n} of the copy yields an object at "
                                   f"{self.loc(d)}; the copy's buffer holds the duplicate at {self.loc(x)}")
                     return False
+                # ... and so do the parts of its nested parts, to any depth (a nested part that still dresses the parts of the object it
+                # was copied FROM mirrors that object, not this one)
+                if d is not None and k == "N" and hasattr(d, "_xobject"):
+                    bad = self.nested_elsewhere(d, f"{hn}.{n}", 0)
+                    if bad:
+                        self.fail("C18:dressed-object-elsewhere", f"after `{after}`: {bad}")
+                        if str(after).startswith("set "):
+                            self.fail("C09:hybrid-nested-assignment-shares-parts", f"after `{after}`: {bad} (the stored copy still dresses parts of the assigned object)")
+                        return False
         return True
+
+    def nested_elsewhere(self, obj, where, depth):
+        """first nested / referenced part (below obj) whose dressed object is not where the buffer data of that field is"""
+        ci = self.U.cls_index(obj)
+        if ci is None or depth > 3:
+            return None
+        for n, k, c in self.U.spec[ci][0]:
+            if k == "n":
+                continue
+            try:
+                d = getattr(obj, self.U.pyname(ci, n))
+                x = getattr(obj._xobject, n)
+            except Exception as ex:
+                return f"reading {where}.{n} raises {type(ex).__name__}: {str(ex)[:100]}"
+            if (d is None) != (x is None):
+                return f"{where}.{n} is {d!r}, the buffer holds {x!r}"
+            if d is None:
+                continue
+            if self.loc(d) != self.loc(x):
+                return f"{where}.{n} is an object at {self.loc(d)}, the buffer data of that field is at {self.loc(x)}"
+            if k == "N" and hasattr(d, "_xobject"):
+                bad = self.nested_elsewhere(d, f"{where}.{n}", depth + 1)
+                if bad:
+                    return bad
+        return None
 
     def check_in_buffer(self, obj, buf, hn, depth=0):
         ci = self.U.cls_index(obj)
@@ -1199,6 +1233,28 @@ def corpus_history9(r, fails, tags):
     return c
 
 
+def corpus_history10(r, fails, tags):
+    """three levels of nesting: a dressed Mid (holding a nested Leaf) is assigned to the nested field of a Top, in the same and in
+    another buffer: the stored copy's OWN leaf is what `top.mid.leaf` dresses - a number written through it reaches top's storage"""
+    c = Case(r, fails, tags, force={"k1": "N", "k1b": None, "k2": "N", "k3": "N"})
+    c.op_new(ci=1, bi=0)
+    if "H1" in c.handles and c.check_mirror(c.ops[-1]):
+        for name, kw in [("op_new", dict(ci=2, bi=0)), ("op_set", dict(target=("H2", "mid"), source="H1")), ("op_get", dict(target=("H2", "mid"))),
+                         ("op_get", dict(target=("H3", "leaf"))), ("op_set", dict(target=("H4", "a"))), ("op_get", dict(target=("H1", "leaf"))),
+                         ("op_new", dict(ci=2, bi=1)), ("op_set", dict(target=("H6", "mid"), source="H1")), ("op_get", dict(target=("H6", "mid"))),
+                         ("op_get", dict(target=("H7", "leaf"))), ("op_set", dict(target=("H8", "v"))), ("op_arr", dict(target="H8"))]:
+            before = len(c.ops)
+            c.last_target = None
+            c.last_field = None
+            try:
+                getattr(c, name)(**kw)
+            except KeyError:
+                break
+            if len(c.ops) > before and not c.check_mirror(c.ops[-1]):
+                break
+    return c
+
+
 def corpus_history8(r, fails, tags):
     """objects of a class exist; another class is defined from `{**Class._xofields, extra}` (extra dynamic field last / first):
     the existing objects, and new objects of the first class, still mirror their data"""
@@ -1242,7 +1298,7 @@ def run_all(tier, seed, extra=None):
     n_hist = {"quick": 40, "thorough": 6000}[tier]
     cases, expects, ctxs = [], [], []
     for hi in range(n_hist):
-        c = corpus_history(r, fails, tags) if hi == 0 else corpus_history2(r, fails, tags) if hi == 1 else corpus_history3(r, fails, tags) if hi == 2 else corpus_history4(r, fails, tags) if hi == 3 else corpus_history5(r, fails, tags) if hi == 4 else corpus_history6(r, fails, tags) if hi == 5 else corpus_history7(r, fails, tags) if hi == 6 else corpus_history8(r, fails, tags) if hi == 7 else corpus_history9(r, fails, tags) if hi == 8 else run_history(r, fails, tags, r.choice([8, 14, 24]))
+        c = corpus_history(r, fails, tags) if hi == 0 else corpus_history2(r, fails, tags) if hi == 1 else corpus_history3(r, fails, tags) if hi == 2 else corpus_history4(r, fails, tags) if hi == 3 else corpus_history5(r, fails, tags) if hi == 4 else corpus_history6(r, fails, tags) if hi == 5 else corpus_history7(r, fails, tags) if hi == 6 else corpus_history8(r, fails, tags) if hi == 7 else corpus_history9(r, fails, tags) if hi == 8 else corpus_history10(r, fails, tags) if hi == 9 else run_history(r, fails, tags, r.choice([8, 14, 24]))
         if extra:
             extra(c, r)
         cases.append(c.ops)
